@@ -161,6 +161,12 @@ mod xen {
             v.push(Op::ArrStore { ty, off, n, i: n - 1 });
             v.push(Op::ArrLoad { ty, off, n, i: n - 1 });
         }
+        // the same with host buffers shorter (and longer) than the array: the part that is copied
+        // crosses a page although as many BYTES as the buffer has elements would not
+        for (ty, off, n, m) in [(Ty::U64, 4096usize - 24, 32usize, 8usize), (Ty::U32, 0xffc, 0x100, 3), (Ty::U16, 0xfff, 0x40, 2), (Ty::U128, 0xff8, 6, 1), (Ty::A3, 0xffe, 9, 2), (Ty::U64, 0xf00, 0x30, 0x31), (Ty::U32, 0xc00, 0x200, 0x100)] {
+            v.push(Op::ArrCopyFrom { ty, off, n, m });
+            v.push(Op::ArrCopyTo { ty, off, n, m });
+        }
         // short overlapping slice-to-slice copies around every page boundary, the destination
         // below and above the source, one or both ranges crossing the boundary
         for b in [4096usize, 8192] {
@@ -942,7 +948,7 @@ mod xen {
 pub fn run(tier: Tier, replay: Option<String>) -> i32 {
     let ctx = crate::new_ctx("C17", tier, "model_checking", &replay);
     let build = if cfg!(feature = "xen") { "xen" } else { "std" };
-    ctx.set_rule("(a) guards: every accessor kind (VolatileSlice at offsets 0..=16 x lengths 0..=16; VolatileRef and VolatileArrayRef for 23 element types covering every size 1..16, offsets 0..=16, element counts 0..=9; to_slice and ref_at derivatives): ptr_guard/ptr_guard_mut len == bytes covered and pointer == first byte. (b) Xen build, emulated gntdev/privcmd (link-time interposed ioctl + mmap): on on-demand grant regions of 2 and 3 pages every access operation of the container alphabet at offsets {0,1,4090..4100,8190..8193,last} and lengths crossing 0, 1 and 2 page boundaries, 12 element types, arrays whose byte length exceeds their element count, and all histories of up to 3 operations over a boundary alphabet (state = region contents, carried over): each operation is first probed in a forked child (a dereference outside any window faults), then executed; the windows requested from the device must cover every page of the bytes the reference model says are touched, the data must be right (read back from the backing file), and no window may remain. Environment faults, deviation bound 1: every operation is re-run once per mmap call and once per map-grant request it makes with exactly that call failing; afterwards no process mapping and no device window may remain, the device protocol must have been respected (the emulated gntdev hands out first-fit indexes unrelated to guest addresses and serves mmap only for an exactly matching live window), and a complete success may not be reported with wrong data. Copies from ordinary memory INTO the region through the slice-to-slice and array-to-slice forms. The same for slices derived from the region's slice through every derivation the API offers (split_at either half, subslice, offset, get_slice, array and reference to_slice, two-step chains): the operations run through the derived accessor with the same oracles. Advance-mapped grant, foreign and UNIX regions: same operations, no device request allowed. One on-demand region of 2^16+3 pages over a sparse file: for seven accessors around 256 MiB (offsets in and off the page grid, lengths 2^28-1 .. 2^28+0x1000 and the whole region) the mapping that is live while the guard is held spans every byte of the guard, and nothing is left afterwards. States/transitions: one transition per operation executed on the real region.");
+    ctx.set_rule("(a) guards: every accessor kind (VolatileSlice at offsets 0..=16 x lengths 0..=16; VolatileRef and VolatileArrayRef for 23 element types covering every size 1..16, offsets 0..=16, element counts 0..=9; to_slice and ref_at derivatives): ptr_guard/ptr_guard_mut len == bytes covered and pointer == first byte. (b) Xen build, emulated gntdev/privcmd (link-time interposed ioctl + mmap): on on-demand grant regions of 2 and 3 pages every access operation of the container alphabet at offsets {0,1,4090..4100,8190..8193,last} and lengths crossing 0, 1 and 2 page boundaries, 12 element types, arrays whose byte length exceeds their element count (also copied from / to host buffers with fewer or more elements than the array), and all histories of up to 3 operations over a boundary alphabet (state = region contents, carried over): each operation is first probed in a forked child (a dereference outside any window faults), then executed; the windows requested from the device must cover every page of the bytes the reference model says are touched, the data must be right (read back from the backing file), and no window may remain. Environment faults, deviation bound 1: every operation is re-run once per mmap call and once per map-grant request it makes with exactly that call failing; afterwards no process mapping and no device window may remain, the device protocol must have been respected (the emulated gntdev hands out first-fit indexes unrelated to guest addresses and serves mmap only for an exactly matching live window), and a complete success may not be reported with wrong data. Copies from ordinary memory INTO the region through the slice-to-slice and array-to-slice forms. The same for slices derived from the region's slice through every derivation the API offers (split_at either half, subslice, offset, get_slice, array and reference to_slice, two-step chains): the operations run through the derived accessor with the same oracles. Advance-mapped grant, foreign and UNIX regions: same operations, no device request allowed. One on-demand region of 2^16+3 pages over a sparse file: for seven accessors around 256 MiB (offsets in and off the page grid, lengths 2^28-1 .. 2^28+0x1000 and the whole region) the mapping that is live while the guard is held spans every byte of the guard, and nothing is left afterwards. States/transitions: one transition per operation executed on the real region.");
     ctx.assume("gntdev/privcmd are emulated at the ioctl contract level (grant reference r = file offset r*4096)");
     if ctx.replay_of.is_some() {
         println!("replay: deterministic enumeration; re-running it");
